@@ -135,9 +135,21 @@ theorem settings_bound (i b : Int) (hi : 0 < i) (hb : 0 ≤ b)
       ts hsorted h0 t T hT
     simpa [hl.2, hB, hb0] using this
 
-/-- The oracle used on observed start times decides the bound for *all* windows: `boundOK` only
-looks at windows that begin just before a start and end at a start; this example shows it rejecting
-a trace with one start too many. -/
+/-- **The oracle decides the property.** `Spec.boundOK I B starts` (what the `oracle bound` line
+evaluates on observed start times) holds exactly when the bound holds for *every* window `(t, t+T]`,
+`T ≥ 0` — although it only looks at the windows that begin just before a start and end at a start. -/
+theorem boundOK_iff_all_windows (I B : Int) (hI : 0 < I) (hB : 0 ≤ B) (gs : List Int) :
+    Spec.boundOK I B gs = true ↔ ∀ t T : Int, 0 ≤ T → (Spec.countIn gs t T : Int) ≤ B + ceilDiv T I := by
+  constructor
+  · intro h t T hT; exact boundOK_sound I B hI hB gs h t T hT
+  · intro h
+    simp only [Spec.boundOK, List.all_eq_true]
+    intro a _ b _
+    by_cases hab : a ≤ b
+    · simp only [hab, if_true, decide_eq_true_eq]
+      exact h (a - 1) (b - a + 1) (by omega)
+    · simp [hab]
+
 example : Spec.boundOK 10 2 [5, 5, 15, 25] = true ∧ Spec.boundOK 10 2 [5, 5, 5, 6, 25] = false := by decide
 
 end ShellOp.RateLimit.C18
